@@ -185,6 +185,8 @@ def simple_expect(docs, name):
     if name.endswith(".schema") or name.endswith(".custom") or name not in docs or not isinstance(docs[name], dict):
         raise Unsupported("doc kind")
 
+    depth = [0]
+
     def target(cur, text):
         opt = text.endswith("?")
         if "?" in text[:-1]:
@@ -198,7 +200,7 @@ def simple_expect(docs, name):
         keys = [k for k in t.split("/") if k != ""]
         if t.endswith("/") and keys:
             raise Unsupported("trailing slash")
-        if not all(_plain_key(k) for k in keys):
+        if not all(_plain_key(k) or k.startswith("@") for k in keys):
             raise Unsupported("ref keys")
         if doc not in docs:
             if opt:
@@ -206,25 +208,45 @@ def simple_expect(docs, name):
             raise Unsupported("missing doc")
         root = docs[doc]
         if doc != cur:
-            if not _plain_tree(root) or (doc + ".custom") in docs or not isinstance(root, dict):
-                raise Unsupported("cross target doc not plain")
+            if not isinstance(root, dict) or (doc + ".custom") in docs or doc.endswith(".schema") or doc.endswith(".custom"):
+                raise Unsupported("cross target doc kind")
+            if not _plain_tree(root) and ("__include" in root or "__patch" in root or not keys):
+                raise Unsupported("cross target doc root not plain")
         else:
             if not isinstance(root, dict) or "__include" in root or "__patch" in root or not keys:
                 raise Unsupported("local root")
         node = root
         for i, k in enumerate(keys):
-            if not isinstance(node, dict):
-                raise Unsupported("path through non-map")
-            if doc == cur and i > 0 and G.has_directive({x: y for x, y in node.items() if x in ("__include", "__patch")}):
-                raise Unsupported("blocking ancestor")
-            if k not in node or node[k] is None:
-                if opt:
-                    return None
-                raise Unsupported("missing target")
-            node = node[k]
-        if not _plain_tree(node):
-            raise Unsupported("target not plain")
-        return copy.deepcopy(node)
+            if isinstance(node, dict):
+                if k.startswith("@"):
+                    raise Unsupported("list key on a map")
+                if i > 0 and G.has_directive({x: y for x, y in node.items() if x in ("__include", "__patch")}):
+                    raise Unsupported("blocking ancestor")
+                if k not in node or node[k] is None:
+                    if opt:
+                        return None
+                    raise Unsupported("missing target")
+                node = node[k]
+            elif isinstance(node, list) and k.startswith("@"):
+                # every spelling of a list position names the same element: @N, @last, @before N, @after N
+                j = G.resolve_idx(k, len(node))
+                if j >= len(node) or node[j] is None:
+                    if opt:
+                        return None
+                    raise Unsupported("missing target")
+                node = node[j]
+            else:
+                raise Unsupported("path through a scalar or a plain key on a list")
+        if _plain_tree(node):
+            return copy.deepcopy(node)
+        # the slot receives the *compiled* referenced node
+        if depth[0] > 6:
+            raise Unsupported("reference chain too deep (or cyclic)")
+        depth[0] += 1
+        try:
+            return ev(doc, node)
+        finally:
+            depth[0] -= 1
 
     def literal(cur, p):
         if isinstance(p, str):
@@ -310,6 +332,94 @@ def gen_simple(rng, idx):
     if rng.random() < 0.3:
         ops.append(("compile", "b"))
     return {"id": "si%d" % idx, "docs": docs, "ops": ops, "mode": "simple", "risk": 0, "features": ["simple-fragment"]}
+
+
+def gen_listref(rng, idx):
+    """directed family inside the fragment: references to list elements through every spelling of the position (@N, @last,
+    @before N, @after N), to elements that carry their own __include / __patch, from keys parsed before (forward reference: the
+    element is still pending) and after the list, from the same document and from another one"""
+    g = G.Gen(rng, "acyclic")
+    g.risk = 0
+
+    def plain(depth, want=None):
+        t = g.data(depth, want)
+        return t if t != "" else "x"
+
+    def pmap(n):
+        return {k: plain(1, "s") for k in rng.sample(G.KEYS, n)}
+    base = pmap(rng.randint(2, 3))
+    n = rng.randint(1, 4)
+    lst = []
+    for j in range(n):
+        u = rng.random()
+        if u < 0.25:
+            el = pmap(rng.randint(1, 2))
+        elif u < 0.32:
+            el = rng.choice(G.WORDS)
+        else:
+            el = {"__include": rng.choice(["/base", "base", "c:/m", "a:/base"])}
+            if rng.random() < 0.6:
+                el[rng.choice(G.KEYS)] = plain(1, "s")
+            if rng.random() < 0.6:
+                lits = [pmap(rng.randint(1, 2)) for _ in range(rng.randint(1, 2))]
+                el["__patch"] = lits if len(lits) > 1 else lits[0]
+        lst.append(el)
+    a = {"base": base, "lst": lst}
+    feats = {"listref"}
+
+    def ref_to(i, prefix):
+        alias = rng.choice(G.idx_aliases(i, n)) if rng.random() < 0.75 else "@%d" % i
+        if not alias[1:].isdigit():
+            feats.add("listref-alias")
+        return prefix + alias
+    for t in range(rng.randint(1, 3)):
+        i = rng.randrange(n)
+        fwd = rng.random() < 0.6
+        name = ("c%d" if fwd else "z%d") % t        # ConfigMap parses keys in sorted order: c* before lst, z* after
+        feats.add("listref-forward" if fwd else "listref-backward")
+        node = {"__include": ref_to(i, rng.choice(["lst/", "/lst/", ":/lst/", "a:/lst/"]))}
+        if isinstance(lst[i], dict):
+            if rng.random() < 0.4:
+                node[rng.choice(G.KEYS)] = plain(1, "s")
+            if rng.random() < 0.3:
+                node["__patch"] = pmap(1)
+        a[name] = node
+    c = {"m": pmap(rng.randint(1, 3))}
+    b = {"m": pmap(2), "q": {"__include": ref_to(rng.randrange(n), "a:/lst/")}}
+    docs = {"a": a, "b": b, "c": c}
+    if rng.random() < 0.3:
+        docs["b.custom"] = {"patch": pmap(1)}
+    ops = [("compile", x) for x in rng.sample(["a", "b"], 2)]
+    return {"id": "lr%d" % idx, "docs": docs, "ops": ops, "mode": "simple", "risk": 0, "features": sorted(feats)}
+
+
+def gen_rootinc(rng, idx):
+    """directed family inside the fragment: a document whose root includes (a map of) another document and that has a
+    <name>.custom.yaml — the automatic patch must still be applied"""
+    g = G.Gen(rng, "acyclic")
+    g.risk = 0
+
+    def pmap(n, depth=1):
+        out = {}
+        for k in rng.sample(G.KEYS, n):
+            t = g.data(depth, rng.choice(["s", "s", "m"]) if depth > 1 else "s")
+            out[k] = t if t != "" else "x"
+        return out
+    b = {"m": pmap(rng.randint(1, 3), 2), "k": rng.choice(G.WORDS), "d": pmap(2)}
+    a = pmap(rng.randint(0, 2))
+    a["__include"] = rng.choice(["b:/", "b:/m", "b:/d", "b.yaml:/"])
+    if rng.random() < 0.3:
+        a["x0"] = {"__include": "b:/d", "__patch": pmap(1)}
+    docs = {"a": a, "b": b}
+    feats = {"rootinc"}
+    if rng.random() < 0.8:
+        docs["a.custom"] = {"patch": pmap(rng.randint(1, 2))}
+        feats.add("rootinc+custom")
+    if rng.random() < 0.2:
+        a["__patch"] = pmap(1)          # an explicit root patch suppresses the automatic one
+        feats.add("rootinc+explicit-patch")
+    ops = [("compile", x) for x in rng.sample(["a", "b"], 2)]
+    return {"id": "ri%d" % idx, "docs": docs, "ops": ops, "mode": "simple", "risk": 0, "features": sorted(feats)}
 
 
 # ---------------------------------------------------------------- verdict for one case
@@ -534,6 +644,8 @@ def run(c):
     cases = corpus_cases(R)
     n_corpus = len(cases)
     cases += [gen_simple(c.rng, i) for i in range(n_si)]
+    n_dir = 150 if quick else 3000
+    cases += [gen_listref(c.rng, i) for i in range(n_dir)] + [gen_rootinc(c.rng, i) for i in range(n_dir)]
     cases += [G.gen_case(c.rng, i, "acyclic") for i in range(n_ac)]
     arb = [G.gen_case(c.rng, i, "arbitrary") for i in range(n_ar)]
     stats = {"compiles": 0, "clean_equal": 0, "failed_equal": 0, "best_effort": 0, "o_simple": 0, "o_plain": 0}
@@ -560,7 +672,11 @@ def run(c):
                     model.setdefault(p[1], []).append((G.unhx(p[2]), fl, lines[i + 1][4:], lines[i + 2][6:]))
                     i += 3
                 else:
+                    if p[0] == "bad-op":
+                        raise vlib.BuildError("driver_c14 rejected a line of the case file")
                     i += 1
+        except vlib.BuildError:
+            raise
         except Exception as e:
             if batch[0].get("mode") != "arbitrary":
                 raise vlib.BuildError("driver_c14 failed on generated cases: %r" % e)
@@ -619,10 +735,10 @@ def run(c):
                                              "the C++ dependency-graph algorithm equals the reference: differential check only (partial)"])
     cov.update({
         "evaluations": stats["compiles"], "distinct_nontrivial": len(nontrivial),
-        "rule": ("document sets: corpus (%d; repo fixtures re-translated from %s/data/test on this run + corpus/C14) + %d simple-fragment + %d "
+        "rule": ("document sets: corpus (%d; repo fixtures re-translated from %s/data/test on this run + corpus/C14) + %d simple-fragment + 2x%d directed (list-element references in every index spelling, forward and backward; root include with custom patch) + %d "
                  "acyclic-grammar + %d arbitrary (cyclic) sets; every document of a set is compiled by the real ConfigBuilder (in-memory "
                  "tree + re-loaded staging YAML) and by the Lean reference; non-trivial = a set containing directives with at least one "
-                 "compile on which the reference run is clean+successful and equal, distinct by set text" % (n_corpus, vlib.REPO, n_si, n_ac, n_ar)),
+                 "compile on which the reference run is clean+successful and equal, distinct by set text" % (n_corpus, vlib.REPO, n_si, n_dir, n_ac, n_ar)),
         "samples": samples or [strip_case(cases[0])],
         "compiles": stats["compiles"], "clean_equal": stats["clean_equal"], "failed_flag_equal": stats["failed_equal"],
         "best_effort_not_compared": stats["best_effort"], "o_simple_fragment_evaluations": stats["o_simple"],
